@@ -10,22 +10,31 @@ open Finsupp
 namespace Kingdon
 noncomputable section
 
-variable (sig : List Int) {α : Type} [CommRing α]
+variable {α : Type} [CommRing α]
 
-/-- geometric product on finitely supported blade-coefficient functions -/
-def clMul (a b : ℕ →₀ α) : ℕ →₀ α :=
-  a.sum fun i ai => b.sum fun j bj => single (i ^^^ j) ((csign sig i j : α) * ai * bj)
+/-- the abstract specification of every product-type operator: the bilinear extension of a blade table
+    `e_i ∘ e_j = s i j • e_(ko i j)` to finitely supported blade-coefficient functions -/
+def bilin (s : Nat → Nat → Int) (ko : Nat → Nat → Nat) (a b : ℕ →₀ α) : ℕ →₀ α :=
+  a.sum fun i ai => b.sum fun j bj => single (ko i j) ((s i j : α) * ai * bj)
 
-theorem csign_cocycle_cast (I J L : Nat) :
-    ((csign sig (I ^^^ J) L : α)) * (csign sig I J : α) = (csign sig I (J ^^^ L) : α) * (csign sig J L : α) := by
-  have := csign_cocycle sig I J L
-  have h2 := congrArg (Int.cast (R := α)) this
+/-- Clifford-type product for a sign table `s` (blade `i` times blade `j` is `s i j` times blade `i xor j`) -/
+def clMulS (s : Nat → Nat → Int) (a b : ℕ →₀ α) : ℕ →₀ α := bilin s (· ^^^ ·) a b
+
+/-- the cocycle condition = associativity of blade multiplication -/
+def IsCocycle (s : Nat → Nat → Int) : Prop :=
+  ∀ I J L, s I J * s (I ^^^ J) L = s J L * s I (J ^^^ L)
+
+theorem cocycle_cast {s : Nat → Nat → Int} (h : IsCocycle s) (I J L : Nat) :
+    ((s (I ^^^ J) L : α)) * (s I J : α) = (s I (J ^^^ L) : α) * (s J L : α) := by
+  have h2 := congrArg (Int.cast (R := α)) (h I J L)
   push_cast at h2
   rw [mul_comm, h2, mul_comm]
 
-theorem clMul_assoc (a b c : ℕ →₀ α) : clMul sig (clMul sig a b) c = clMul sig a (clMul sig b c) := by
+/-- associativity of the product on multivectors follows from the cocycle identity on blades -/
+theorem clMulS_assoc {s : Nat → Nat → Int} (hs : IsCocycle s) (a b c : ℕ →₀ α) :
+    clMulS s (clMulS s a b) c = clMulS s a (clMulS s b c) := by
   classical
-  simp only [clMul]
+  simp only [clMulS, bilin]
   rw [Finsupp.sum_sum_index (by intro; simp) (by intro i x y; simp [Finsupp.sum_add_index', mul_add, add_mul])]
   refine Finsupp.sum_congr fun i _ => ?_
   rw [Finsupp.sum_sum_index (by intro; simp) (by intro i x y; simp [Finsupp.sum_add_index', mul_add, add_mul])]
@@ -37,8 +46,16 @@ theorem clMul_assoc (a b c : ℕ →₀ α) : clMul sig (clMul sig a b) c = clMu
   rw [Finsupp.sum_single_index (by simp)]
   rw [Nat.xor_assoc]
   congr 1
-  have := csign_cocycle_cast (sig := sig) (α := α) i j k
+  have := cocycle_cast (α := α) hs i j k
   linear_combination (a i * b j * c k) * this
+
+/-- geometric product for the canonical table of signature `sig` -/
+abbrev clMul (sig : List Int) (a b : ℕ →₀ α) : ℕ →₀ α := clMulS (csign sig) a b
+
+theorem csign_isCocycle (sig : List Int) : IsCocycle (csign sig) := csign_cocycle sig
+
+theorem clMul_assoc (sig : List Int) (a b c : ℕ →₀ α) :
+    clMul sig (clMul sig a b) c = clMul sig a (clMul sig b c) := clMulS_assoc (csign_isCocycle sig) a b c
 
 end
 end Kingdon
